@@ -59,7 +59,7 @@ try:
             for n, l in enumerate(lines):
                 if l.startswith("VIOLATION"):
                     pairs.append((lines[n - 1] if n and lines[n - 1].startswith("#") else "", l))
-            infra = ("failed to evaluate", "harness failed", "does not build", "proof obligation no longer checks", "cannot parse")
+            infra = ("the Coq side of the correspondence failed to evaluate", "harness failed", "does not build", "proof obligation no longer checks", "cannot parse")
             genuine = [p for p in pairs if not any(x in p[0] for x in infra)]
             concrete = [p for p in genuine if "no-failing-input-found" not in p[1]]
             viol = [p[1] for p in (concrete or genuine)]
